@@ -143,6 +143,8 @@ class ExprMixin:
             return z3.Or(v.aux != 0, v.t != 0)
         if k == "none":
             return z3.BoolVal(False)
+        if k == "str":
+            return v.t != str_id("")
         if k == "ref":
             return z3.BoolVal(True)
         if k == "list":
